@@ -15,7 +15,7 @@ PY = "/venv/bin/python"
 IMPL = os.path.join(HERE, "impl.py")
 NPROC = int(os.environ.get("VERIF_JOBS", "16"))
 
-MODEL_ONLY_FIELDS = re.compile(r" (spec|kd|total|det|order|tree)=\S+")
+MODEL_ONLY_FIELDS = re.compile(r" (spec|kd|total|det|order|tree|f04)=\S+")
 HOOK_SERIALS = re.compile(r"#[0-9?]+\+?")
 MODEL_ONLY_CMDS = ("(sem ", "(seqsem ")
 
